@@ -5,7 +5,8 @@
 //	c10 oracle <stream> <ops-in> <verdict-out>
 //	c10 table  chains <out.lean>
 //
-// Streams: compose (sidecar/xDS resolvers + client side), ambient (ztunnel policy conversion).
+// Streams: compose (sidecar/xDS resolvers + client side), ambient (ztunnel policy conversion),
+// inbound (the real virtualInbound listener).
 // The Lean driver (lean/IstioModel/C10/Driver.lean) consumes the same ops file; outputs are
 // compared line by line.
 //
@@ -17,6 +18,7 @@
 //	     ports: - | 80:STRICT,8080:nil,...
 //	q <ns> <labels> <svcNs> <ports>                      -> M=.. PP=.. Q=.. NS=.. G=.. BE=.. CFG=..
 //	chk <ns> <labels> <port> <epTLS 0|1> <dr>            -> 0|1        dr: nil|DISABLE|SIMPLE|MUTUAL|ISTIO_MUTUAL
+//	il <ns> <labels>                                     -> chains of the real virtualInbound listener (inbound.go)
 //	aq <ns> <labels> <ports>                             -> K=.. P=.. D=..   (ambient, see ambient.go)
 package main
 
@@ -207,6 +209,11 @@ func (s *sut) apply(f []string) (out string) {
 		}
 		p, _ := strconv.ParseUint(f[3], 10, 32)
 		return wire.B(s.check(wire.Dec(f[1]), parseLabels(f[2]), uint32(p), f[4] == "1", f[5]))
+	case "il":
+		if len(f) != 3 {
+			return "bad-op"
+		}
+		return s.inboundListener(wire.Dec(f[1]), parseLabels(f[2]))
 	case "aq":
 		if len(f) != 4 {
 			return "bad-op"
